@@ -51,6 +51,9 @@ pub fn run(id: &str, tier: Tier) -> Option<i32> {
 /// Replays one saved case; returns (held, message).
 pub fn replay(property: &str, part: &str, case: &serde_json::Value) -> Option<Result<(), (String, String, u32)>> {
     use crate::core::replay_part;
+    if let Some(target) = part.strip_prefix("fuzz:") {
+        return Some(crate::fuzzrun::replay(target, case));
+    }
     Some(match (property, part) {
         ("C07", "roundtrip") => replay_part(&c07::RoundTrip, case, 1),
         ("C07", "prefixes") => replay_part(&c07::Prefixes, case, 1),
